@@ -222,6 +222,8 @@ def run(tier):
         acq = leak_rules(prog, rep)
         atomic_rule(prog, rep)
         infallible_rule(prog, rep)
+        from . import c07
+        c07.orphan_rule(prog, rep)     # a queue-resident buffer must not be orphaned when launching its write fails
     rep.notes.append("acquirers discovered from the program: " + ", ".join(sorted(set(acq) - set(own.LIBC_ACQ))))
     n = len(configs)
     rep.require_min("LEAK", 180 * n)
